@@ -14,6 +14,7 @@ import (
 	"os"
 	"sort"
 	"strconv"
+	"strings"
 	"sync"
 	"sync/atomic"
 	"time"
@@ -49,6 +50,15 @@ type Case struct {
 }
 
 var idStrings = []string{"", "bk1", "bk2", "bk 3/x", "Bk1", "b%2Fk"}
+
+// idString: interned id -> booking id; ids beyond the fixed spellings are the "wide" population
+// (histories over hundreds of ids, to get past map-growth and count thresholds)
+func idString(k uint64) string {
+	if k < uint64(len(idStrings)) {
+		return idStrings[k]
+	}
+	return fmt.Sprintf("wide-%d-%s", k, strings.Repeat("x", int(k%7)*9))
+}
 
 func (o Op) coq() string {
 	switch o.K {
@@ -183,6 +193,13 @@ func intern(ss []string) []uint64 {
 				found = true
 			}
 		}
+		if !found && strings.HasPrefix(s, "wide-") {
+			var k uint64
+			if _, err := fmt.Sscanf(s, "wide-%d-", &k); err == nil && idString(k) == s {
+				out = append(out, k)
+				found = true
+			}
+		}
 		if !found {
 			out = append(out, 999) // an id nobody put there
 		}
@@ -203,7 +220,7 @@ func class(status int) int {
 
 // exec runs one op against the real code and returns the observed output.
 func (a *api) exec(o Op) Out {
-	id := idStrings[o.ID]
+	id := idString(o.ID)
 	switch o.K {
 	case "ODeny":
 		a.ds.Deny(id, o.E)
@@ -289,6 +306,13 @@ func genHistory(r *lib.Rng, t0 int64, ae bool, handlerLevel bool) []Op {
 	ops := []Op{}
 	t := t0
 	nid := r.Range(2, len(idStrings)-1)
+	if r.Chance(1, 12) { // a wide history: many ids, many operations (store level mostly: cheap)
+		nid = r.Range(20, 400)
+		n = r.Range(nid, 2*nid)
+		if handlerLevel {
+			n = r.Range(60, 160)
+		}
+	}
 	pickID := func() uint64 {
 		if r.Chance(1, 12) {
 			return 0
